@@ -54,6 +54,11 @@ Server0(w) == LET s0 == StateOfWorld(w) IN
 
 HasId(S, id) == \E x \in S : x.id = id
 Entry(S, id) == CHOOSE x \in S : x.id = id
+(* comparisons of name STRINGS without regard to case (NocaseDict, lower()):*)
+(* spelling "s" - the name written with leading and trailing slash - is a  *)
+(* different string                                                        *)
+HasPlain(S, id) == \E x \in S : x.id = id /\ x.cs # "s"
+PlainEntry(S, id) == CHOOSE x \in S : x.id = id /\ x.cs # "s"
 
 (*----------------------- _determine_interop_ns ---------------------------*)
 (* EnumerateInstanceNames('CIM_Namespace', namespace=candidate)            *)
@@ -67,7 +72,7 @@ TryCands(w, v, i) ==
        IF ~HasId(v.ns, cand) THEN TryCands(w, v, i + 1)   \* INVALID_NAMESPACE
        ELSE IF ~NsClassHere(w) THEN <<Nm(cand, "a")>>     \* INVALID_CLASS
        ELSE LET names == ListedNames(w, v) IN             \* NocaseDict lookup
-            IF HasId(names, cand) THEN <<Entry(names, cand)>>
+            IF HasPlain(names, cand) THEN <<PlainEntry(names, cand)>>
             ELSE <<Nm(cand, "a")>>
 RECURSIVE TryCandsRev(_, _, _)
 TryCandsRev(w, v, i) ==
@@ -101,7 +106,7 @@ DetermineNamespaces(w, v, c) ==
   IF cls = "" THEN <<Ex("ModelError"), c1>>
   ELSE LET insts == ListedNames(w, v)
            iop == c1.interop[1]
-           nss == IF HasId(insts, iop.id) \/ Variant = "noappend" THEN insts
+           nss == IF HasPlain(insts, iop.id) \/ Variant = "noappend" THEN insts
                   ELSE insts \cup {iop} IN
        <<Ok, [c1 EXCEPT !.nsdet = TRUE, !.nss = nss, !.paths = insts,
                         !.cls = cls]>>
@@ -137,9 +142,9 @@ ImplVersion(om) ==
                  (CASE om.desc = "ver" -> "v" [] om.desc = "verrel" -> "vrest"
                     [] OTHER -> "none")
             [] om.en = "fujitsu" /\ ~PinnedBrand -> "none"
-            [] OTHER ->
+            [] OTHER ->      \* '^.* (?:version|release) *(.+)?$', greedy
                  (CASE om.desc \in {"ver", "rel"} -> "v"
-                    [] om.desc = "verrel" -> "vrest" [] OTHER -> "none")]
+                    [] om.desc = "verrel" -> "reltail" [] OTHER -> "none")]
 ImplBrandOp(w, v, c, which) ==
   LET di == DetermineInterop(w, v, c) IN
   IF di[1].k # "ok" THEN <<[k |-> di[1].k, code |-> 0, val |-> ""], di[2]>>
